@@ -114,8 +114,25 @@ func validateSuite() Suite {
 	}
 }
 
+func textSuite() Suite {
+	return Suite{
+		Name:   "text",
+		MkExec: func() Executor { return ImplCodec{} },
+		Canon:  canonCodec,
+		Gen:    genTextOps,
+		Cases: func(tier string) int {
+			if tier == "thorough" {
+				return 6000
+			}
+			return 400
+		},
+	}
+}
+
 func suitesFor(prop string) []Suite {
 	switch prop {
+	case "C19":
+		return []Suite{textSuite()}
 	case "C07":
 		return []Suite{validateSuite()}
 	case "C15":
